@@ -31,12 +31,8 @@ func c12RT(d *IpfsDHT) []peer.ID {
 	return ps
 }
 
-func c12Run(t *testing.T, r *vfRand, nPeers, nActions, k int) (steps []c12Step, self peer.ID, refreshAnswers []int, panicked string) {
+func c12Run(t *testing.T, r *vfRand, nPeers, nActions, k int, rejectedOut *[]peer.ID) (steps []c12Step, self peer.ID, refreshAnswers []int, panicked string) {
 	c := &lkCase{k: k, alpha: 1 + r.Intn(3), beta: 1 + r.Intn(3)}
-	node := simNewNode(t, r, c.k, c.alpha, c.beta)
-	defer node.Close()
-	d := node.d
-	self = d.self
 	proto := protocol.ID("/verif/kad/1.0.0")
 	ids := make([]peer.ID, nPeers)
 	fails := make(map[peer.ID]bool) // current behaviour: requests to the peer fail
@@ -44,6 +40,42 @@ func c12Run(t *testing.T, r *vfRand, nPeers, nActions, k int) (steps []c12Step, 
 	for i := range ids {
 		ids[i] = simPeerID(r)
 	}
+	// the routing-table filter of this node rejects some peers for good
+	rejected := map[peer.ID]bool{}
+	if r.Chance(50) {
+		for _, p := range ids {
+			if r.Chance(25) {
+				rejected[p] = true
+			}
+		}
+	}
+	for _, p := range ids {
+		if rejected[p] {
+			*rejectedOut = append(*rejectedOut, p)
+		}
+	}
+	// peers already connected when the DHT is created (New fills the table from them), with or
+	// without the protocol in the peerstore
+	var pre []peer.ID
+	preProto := map[peer.ID]bool{}
+	if r.Chance(50) {
+		for _, j := range r.Perm(len(ids))[:1+r.Intn(minInt(3, len(ids)))] {
+			pre = append(pre, ids[j])
+			preProto[ids[j]] = r.Chance(75)
+		}
+	}
+	simPreNew = func(h *simHost) {
+		h.net.peers = pre
+		for _, p := range pre {
+			if preProto[p] {
+				_ = h.ps.AddProtocols(p, proto)
+			}
+		}
+	}
+	node := simNewNode(t, r, c.k, c.alpha, c.beta, RoutingTableFilter(func(_ any, p peer.ID) bool { return !rejected[p] }))
+	defer node.Close()
+	d := node.d
+	self = d.self
 	_ = func(p peer.ID) bool {
 		for _, q := range d.routingTable.ListPeers() {
 			if q == p {
@@ -116,12 +148,22 @@ func c12Run(t *testing.T, r *vfRand, nPeers, nActions, k int) (steps []c12Step, 
 			panicked = fmt.Sprint(e)
 		}
 	}()
+	if len(pre) > 0 {
+		steps = append(steps, c12Step{action: "preconnected"})
+		cur = &steps[len(steps)-1]
+		for _, p := range pre {
+			cur.events = append(cur.events, fmt.Sprintf("PeerChange %s %s", kad(p), vfBool(preProto[p] && !rejected[p])))
+		}
+		quiesce(context.Background(), nil, nil)
+		synctest.Wait()
+		cur.rt = c12RT(d)
+	}
 	if k < 20 {
 		steps = append(steps, c12Step{action: "bulk-identify"})
 		cur = &steps[len(steps)-1]
 		for _, p := range ids {
 			_ = node.h.ps.AddProtocols(p, proto)
-			cur.events = append(cur.events, fmt.Sprintf("PeerChange %s true", kad(p)))
+			cur.events = append(cur.events, fmt.Sprintf("PeerChange %s %s", kad(p), vfBool(!rejected[p])))
 			_ = emitter1.Emit(event.EvtPeerIdentificationCompleted{Peer: p})
 			quiesce(context.Background(), nil, nil)
 		}
@@ -148,7 +190,7 @@ func c12Run(t *testing.T, r *vfRand, nPeers, nActions, k int) (steps []c12Step, 
 			_ = node.h.ps.AddProtocols(p, proto)
 			useful := d.routingTable.UsefulNewPeer(p)
 			_ = useful
-			cur.events = append(cur.events, fmt.Sprintf("PeerChange %s true", kad(p)))
+			cur.events = append(cur.events, fmt.Sprintf("PeerChange %s %s", kad(p), vfBool(!rejected[p])))
 			// reported by identification on a new connection, or by an identify push on a live one
 			if r.Chance(70) {
 				_ = emitter1.Emit(event.EvtPeerIdentificationCompleted{Peer: p})
@@ -353,7 +395,11 @@ func TestVerifC12(t *testing.T) {
 		var self peer.ID
 		var answers []int
 		var panicked string
-		leak := simBubble(t, func(t *testing.T) { steps, self, answers, panicked = c12Run(t, r.Fork(), nPeers, nActions, k) })
+		var rej []peer.ID
+		leak := simBubble(t, func(t *testing.T) {
+			rej = nil
+			steps, self, answers, panicked = c12Run(t, r.Fork(), nPeers, nActions, k, &rej)
+		})
 		stepsCoq := make([]string, len(steps))
 		acts := map[string]int{}
 		nev := 0
@@ -368,8 +414,8 @@ func TestVerifC12(t *testing.T) {
 				okAnswers = false
 			}
 		}
-		coq := fmt.Sprintf("{| c_self := %s; c_may_reject := %s; c_steps := %s;\n   i_panic := %s; i_refresh_answered_once := %s |}",
-			simKadCoq([]byte(self)), vfBool(k < 20), vfList(stepsCoq), vfBool(panicked != "" || leak != ""), vfBool(okAnswers))
+		coq := fmt.Sprintf("{| c_self := %s; c_may_reject := %s; c_rejected := %s; c_steps := %s;\n   i_panic := %s; i_refresh_answered_once := %s |}",
+			simKadCoq([]byte(self)), vfBool(k < 20), lkIDs(rej), vfList(stepsCoq), vfBool(panicked != "" || leak != ""), vfBool(okAnswers))
 		sig := ""
 		if nev > 3 {
 			keys := []string{}
